@@ -127,7 +127,7 @@ PROPS = {
         "rules": [shape.rule_shape, shrinking.rule_chirality, shrinking.rule_samesrc, shrinking.rule_declsrc, shrinking.rule_idcmp, shrinking.rule_cutvar, shrinking.rule_cutkind, enums.rule_enum_maps({"core2axcut"}),
                   fresh.rule_fresh, fresh.rule_maxid, traversal.rule_trav(["core2axcut::shrinking::Shrinking", "scc_core_lang::traits::substitution::SubstVar",
                                                                           "scc_core_lang::traits::typed_free_vars::TypedFreeVars"]),
-                  inputs.rule_useall_for(["core2axcut"], 35)],
+                  inputs.rule_useall_for(["core2axcut"], 35), traversal.rule_siblings],
         "text": "Structural necessary conditions of shrinking: all 18 well-typed (producer, consumer) cut shapes are handled before the "
                 "wildcard (R-SHAPE); the chirality collapse folds to the documented 6-row table (R-CHI, abstract interpretation of "
                 "shrink_binding); lifted definitions get exactly the free variables, in one order, on both sides (R-SAMESRC); generated "
@@ -169,7 +169,7 @@ PROPS = {
     "C05": {
         "rules": [traversal.rule_trav(["axcut::traits::free_vars::FreeVars", "axcut::traits::substitution::Subst",
                                    "axcut::traits::typed_free_vars::TypedFreeVars", "axcut::traits::linearize::Linearizing"]), wiring.rule_wire_intra, annot.rule_annot_freevars, shape.rule_shape,
-                  fresh.rule_fresh, linear.rule_linear_subst, linear.rule_linear_ctx, inputs.rule_useall_for(["axcut"], 50)],
+                  fresh.rule_fresh, linear.rule_linear_subst, linear.rule_linear_ctx, inputs.rule_useall_for(["axcut"], 50), traversal.rule_siblings],
         "text": "Structural necessary conditions of linearization: every FreeVars/Subst/TypedFreeVars/Linearizing impl of AxCut visits "
                 "every sub-statement (R-TRAV), free-variable annotation precedes linearization (R-WIRE) and is set on every path "
                 "(R-ANNOT), only Substitute reaches the panic of Statement::linearize (R-SHAPE).",
@@ -177,7 +177,7 @@ PROPS = {
     },
     "C12": {
         "rules": [panics.rule_panic(("B",)), annot.rule_annot_check, annot.rule_annot_freevars, shape.rule_shape,
-                  traversal.rule_trav(["fun::typing::check::Check"]), wiring.rule_wire_intra, hygiene.rule_fvscope, shrinking.rule_cutvar],
+                  traversal.rule_trav(["fun::typing::check::Check"]), wiring.rule_wire_intra, hygiene.rule_fvscope, shrinking.rule_cutvar, traversal.rule_siblings],
         "text": "'No internal failure' clause: every panic-capable site reachable from the post-check stage entry points is audited, "
                 "and the annotation/shape classes are discharged by checked rules rather than trusted: Check sets every annotation on "
                 "every Ok path and visits every subterm (R-ANNOT, R-TRAV), free-variable and closure-environment annotations are set "
